@@ -6,6 +6,7 @@
   (frontier semantics, written independently of the walker).
 -/
 import Mxj.Lemmas.Path
+import Mxj.Lemmas.PathIdx
 namespace Mxj.C07
 open Mxj Mxj.Denote
 
@@ -68,6 +69,35 @@ theorem C07_exists (sep : Str) (pf : Str → Option Str) (m : Val) (p : Str) (su
     pathExists sep pf m p subkeys = (valuesForPath sep pf m p subkeys).map (fun vs => !vs.isEmpty) := by
   unfold pathExists
   cases valuesForPath sep pf m p subkeys <;> rfl
+
+/-- The look-ahead index wrapper (`valuesForArray`) computes the frontier denotation of an
+    indexed path on every Map without a list directly inside a list: `k[i]` selects, for each
+    parent, the i-th of the values `k` alone would yield. -/
+theorem C07_indexed_is_denotation (keys : List Key) (kvs : Entries) (hne : keys ≠ [])
+    (hnames : ∀ k ∈ keys, (k.isArray = false → nameOk k.name = true)
+      ∧ (k.isArray = true → nameOk k.name = true ∧ k.name ≠ ['*']))
+    (hm : noListInList (.map kvs) = true) :
+    valuesForArray keys (.map kvs) = Denote.path (keys.map keyStep) (.map kvs) :=
+  vfa_is_denotation keys kvs hne hnames hm
+
+/-- `ValuesForPath` (plain, wildcard and indexed paths, with or without sub-keys): whenever
+    the specification applies — the arguments parse, indexes sit on non-empty non-wildcard
+    keys, and for indexed paths the Map has no list directly inside a list — the result is
+    exactly the denotation, same values in the same order. -/
+theorem C07_path_is_denotation (sep : Str) (pf : Str → Option Str) (m : Entries) (p : Str)
+    (subkeys : List Str) (vs spec : List Val)
+    (h : valuesForPath sep pf (.map m) p subkeys = .ok vs)
+    (hs : Denote.valuesForPath sep pf (.map m) p subkeys = some spec) : vs = spec :=
+  valuesForPath_is_denotation sep pf m p subkeys vs spec h hs
+
+/-- non-vacuity of the indexed theorem: `items[1].sub.list[0]`-style path (index, plain keys,
+    index) on a list of maps is inside the specification's domain -/
+example :
+    Denote.valuesForPath [':'] (fun _ => none)
+      (.map [(['d'], .list [.map [(['s'], .map [(['l'], .list [.str ['a'], .str ['b']])])],
+                            .map [(['s'], .map [(['l'], .list [.str ['c'], .str ['d']])])]])])
+      "d[1].s.l[0]".toList []
+    = some [.str ['c']] := by decide
 
 /-- non-vacuity: a concrete Map with a list of maps, a path that goes through the list -/
 example :
